@@ -764,6 +764,9 @@ fn directed_capacity(t: &mut Trace, start: u32, per_ledger: u32, period: u32) {
     }
     s.spend(t, 0, 1, 1);
     s.advance(t, period + 5); // everything leaves
+    // the whole limit fits again: refused if any of the 1000 expired entries is still charged (seed C14-r11-2:
+    // eviction capped per call)
+    s.spend(t, 0, 1, 1_000_000_000);
     s.spend(t, 0, 1, 1);
 }
 
